@@ -4,6 +4,7 @@ CONSTANTS
   S = 3
   Ws = {0, 1, 2, 3}
   WriterTyped = {TRUE, FALSE}
+  Named = {TRUE}
 INVARIANT TypeOK
 INVARIANT Conservation
 INVARIANT AtMostOnce
